@@ -60,6 +60,55 @@ theorem readAll_message (r0 : Rd) (s : Src) (cx : Ctx) (f0 : WFrame) (fs : List 
   rw [hp]
   simp [hfl, ctlLog_spec]
 
+/-- The same without a handler (plain `wsutil.Reader` + ReadAll): interleaved control frames are skipped. -/
+theorem pull_message_plain (skip : Bool) (st maxF : Nat) (rest : Bytes) (fuel : Nat) :
+    ∀ (r : Rd) (s : Src) (cx : Ctx) (rem : Bytes) (fs0 : List WFrame) (acc : List Bytes),
+      Sync false skip st maxF rest r s rem fs0 → weight r s < fuel →
+      ∃ chunks r' s', Rd.pull true 512 none fuel r s cx acc = (acc.reverse ++ chunks, .eof, r', s', cx)
+        ∧ chunks.flatten = rem ∧ s'.bytes = rest ∧ Src.Tame s' := by
+  induction fuel with
+  | zero => intro r s cx rem fs0 acc _ h; omega
+  | succ n ih =>
+    intro r s cx rem fs0 acc hs hw
+    rcases step false skip st maxF rest r s cx 512 (by decide) rem fs0 hs with ⟨b, e, r1, s1, hrd, hcase⟩ | hend
+    · have hpad : (b ++ List.replicate (b.length - b.length) 0).take b.length = b := by simp
+      rcases hcase with ⟨he, rem1, fs1, hr1, hs1, hw1⟩ | ⟨he, hr1, hb1, ht1, _⟩
+      · subst he
+        obtain ⟨chunks, r', s', hp, hfl, hb', ht'⟩ := ih r1 s1 cx rem1 fs1 (if b.length = 0 then acc else b :: acc) hs1 (by omega)
+        rw [Rd.pull]
+        simp only [if_true, hrd, hpad]
+        rw [hp]
+        by_cases hz : b.length = 0
+        · have hb0 : b = [] := List.length_eq_zero_iff.mp hz
+          refine ⟨chunks, r', s', by simp [hz], by rw [hfl, hr1, hb0]; rfl, hb', ht'⟩
+        · refine ⟨b :: chunks, r', s', by simp [hz], by simp [hfl, hr1], hb', ht'⟩
+      · subst he
+        rw [Rd.pull]
+        simp only [if_true, hrd, hpad]
+        by_cases hz : b.length = 0
+        · have hb0 : b = [] := List.length_eq_zero_iff.mp hz
+          exact ⟨[], r1, s1, by simp [hz], by rw [hr1, hb0]; rfl, hb1, ht1⟩
+        · exact ⟨[b], r1, s1, by simp [hz], by simp [hr1], hb1, ht1⟩
+    · exact absurd hend.opn (by decide)
+
+theorem readAll_message_plain (r0 : Rd) (s : Src) (cx : Ctx) (f0 : WFrame) (fs : List WFrame) (rest : Bytes)
+    (hnf : r0.fragmented = false) (hst : r0.state < 256)
+    (hext : r0.ext = false) (hu8 : r0.checkUTF8 = false)
+    (hm : Message r0 f0 fs)
+    (hb : s.bytes = encodeFs (f0 :: fs) ++ rest) (hwf : Bytes.WF s.bytes) (htame : Src.Tame s) :
+    ∃ r1 s1 r' s',
+      r0.nextFrame s cx none = (some f0.h, none, r1, s1, cx)
+      ∧ readAllRd r1 s1 cx none = (dataPlain (f0 :: fs), none, r', s', cx)
+      ∧ s'.bytes = rest := by
+  obtain ⟨s1, hnext, hsync, hmu1, _⟩ := message_enter r0 s cx none f0 fs rest hnf hst hext hu8 hm hb hwf htame
+  obtain ⟨chunks, r', s', hp, hfl, hb', _⟩ :=
+    pull_message_plain r0.skipCheck (stSet r0.state stFragmented) r0.maxFrame rest (pullFuel s1) (enter r0 f0.h) s1 cx _ fs [] hsync
+      (by simp only [weight, enter]; unfold pullFuel Src.fuel mu; split <;> omega)
+  refine ⟨enter r0 f0.h, s1, r', s', hnext, ?_, hb'⟩
+  unfold readAllRd
+  rw [hp]
+  simp [hfl]
+
 /-- The example message of Props/C04 through ReadAll: "hello", no error, the ping logged, two bytes left. -/
 example :
     (match exR0.nextFrame exSrc {} (some collect) with
